@@ -29,7 +29,7 @@ HARNESSES = {
     "c06_worker": {"src": [H + "c06_worker.c", M + "upipe_transfer.c", M + "upipe_worker.c"] + PIPEX + VS},
     "c06_xfer": {"src": [H + "c06_xfer.c", M + "upipe_transfer.c"] + PIPEX + VS},
     "c06_queue": {"src": [H + "c06_queue.c"] + PIPEX + VS},
-    "c12_request": {"src": [H + "c12_request.c"] + PIPEX},
+    "c12_request": {"src": [H + "c12_request.c", T + "upipe_ts_align.c", T + "upipe_ts_sync.c", T + "upipe_ts_check.c"] + PIPEX},
     "c14_rechunk": {"src": [H + "c14_rechunk.c", T + "upipe_ts_sync.c", T + "upipe_ts_check.c", T + "upipe_ts_align.c"] + PIPEX},
     "pipex_cat": {"src": [H + "pipex_cat.c", T + "upipe_ts_sync.c", T + "upipe_ts_check.c", T + "upipe_ts_align.c", T + "upipe_ts_psi_split.c", T + "upipe_ts_split.c"] + PIPEX},
     "c07_lin": {"src": [H + "c07_lin.c"] + VS},
@@ -421,7 +421,7 @@ CHECKS["C20"] = {
 def _c12_jobs(tier):
     q = tier == "quick"
     jobs = []
-    for topo in (0, 1, 2, 3):
+    for topo in (0, 1, 2, 3, 4):
         for pool in (0, 2):
             jobs.append(("c12_request", ["--topo", topo, "--pool", pool, "--nreq", 2, "--depth", 6 if q else 8, "--deadline", 75 if q else 840]))
         jobs.append(("c12_request", ["--topo", topo, "--pool", 0, "--nreq", 3, "--depth", 5 if q else 6, "--deadline", 75 if q else 840]))
@@ -433,11 +433,11 @@ def _c12_jobs(tier):
 CHECKS["C12"] = {
     "engine": "pipex", "design_ref": "DESIGN.md section 3 C12",
     "technique": "explicit-state enumeration of all register/unregister/set_output/provide/release (and loop dispatch) sequences up to a depth over chains of two real pipes between a recording requester and two recording providers, in one thread and across a queue sink/source pair; routing and callback oracles after every step",
-    "level_text": "Chains head -> P1 -> P2 -> {T0,T1} with (P1,P2) in idem/idem, skip/setflowdef, dup/idem and idem -> queue sink | queue source -> idem (mock loop, every dispatch order); requests uref_mgr, uclock (and sink_latency); every sequence up to the stated depth of register, unregister, P1.set_output(P2|NULL), P2.set_output(T0|T1|NULL), provide by a provider holding a request, pump dispatch, release of P2 / P1. After every step: the provider reachable through the outputs holds exactly one registration per request registered at the head and every other provider none (withdrawn on re-plumbing, re-issued to the new output, never twice); an answer given by a provider reaches the head callback exactly once with that value; the callback never fires while the request is not registered (including answers in flight in the queue); no provider is asked to unregister what it does not hold; at the end no proxy or message is left allocated. Bounded, not a proof.",
+    "level_text": "Chains head -> P1 -> P2 -> {T0,T1} with (P1,P2) in idem/idem, skip/setflowdef, dup/idem, idem -> queue sink | queue source -> idem (mock loop, every dispatch order) and ts_align (a bin pipe whose inner pipe every set_flow_def replaces: helper_bin_input / helper_bin_output) -> idem; requests uref_mgr, uclock (and sink_latency); every sequence up to the stated depth of register, unregister, P1.set_output(P2|NULL), P2.set_output(T0|T1|NULL), provide by a provider holding a request, pump dispatch, release of P2 / P1. After every step: the provider reachable through the outputs holds exactly one registration per request registered at the head and every other provider none (withdrawn on re-plumbing, re-issued to the new output, never twice); an answer given by a provider reaches the head callback exactly once with that value; the callback never fires while the request is not registered (including answers in flight in the queue); no provider is asked to unregister what it does not hold; at the end no proxy or message is left allocated. Bounded, not a proof.",
     "level_note": "Chain length 2 (+ queue); longer chains repeat the same helper. Requests that no provider holds are answered by the real uprobe_uref_mgr / uprobe_uclock probes. Flow-format and ubuf-manager requests are not in the alphabet.",
     "jobs": {"quick": _c12_jobs("quick"), "thorough": _c12_jobs("thorough")},
     "rule": "state = one operation history (no merging); non-trivial = histories in which a provider held a registration or the head callback fired",
-    "bounds": {"quick": "4 topologies x pool depth {0,2}: all sequences of up to 6 operations with 2 request types; 3 request types up to depth 5, also with providers answering inside register and with a requester callback that withdraws and re-issues another request (mutating the request lists during re-plumbing)",
+    "bounds": {"quick": "5 topologies x pool depth {0,2}: all sequences of up to 6 operations with 2 request types; 3 request types up to depth 5, also with providers answering inside register and with a requester callback that withdraws and re-issues another request (mutating the request lists during re-plumbing)",
                "thorough": "depth 8 (2 request types) and 6 (3 request types)"},
     "assumptions": DEFAULT_ASSUME + ["a requester unregisters its requests before releasing the pipe it registered them on (ownership rule)"],
     "job_timeout": {"quick": 300, "thorough": 1500},
